@@ -32,6 +32,12 @@ def cases(seed, tier):
         if i % 4 == 0:
             # fully discrete decision problem with (binding) constraints on discrete choices
             c["force"] = sorted(set([x for x in c["force"] if x not in ("cont2", "flatc")] + ["nocc", "constraint"]))
+        if i % 4 == 1:
+            # initial states in the dtypes a data set delivers: int8 codes, float32 columns (on the grid all the same)
+            c["narrow_init"] = True
+            c["int_init"] = False
+            if i % 8 == 1:
+                c["force"] = sorted(set([x for x in (c["force"] or []) if x not in ("stacked", "divguard")] + ["intutil"]))
         if i % 5 == 2:
             # states without any feasible choice (value -inf): both routes must report the same -inf
             c["force"] = sorted(set((c["force"] or []) + ["ninf"]))
